@@ -1,6 +1,9 @@
-"""Executable form of the C01 specification, written independently of the Lean
-model's structure: exact integer arithmetic, nearest by bisection over the
-ordered list of all binary16 magnitudes (0x7c00 standing for 2^16)."""
+"""Executable form of the C01 specification: exact integer arithmetic, nearest by bisection over the
+ordered list of all binary16 magnitudes (0x7c00 standing for 2^16).  The ROUNDING step is written
+independently of the Lean model's structure (no thresholds, no add-and-shift).  The DENOTATION
+(hval24, fval149) is the same closed form as Lean's hval / fval: it is not an independent one —
+that role is played by Spec/HalfVal.lean (proved bridge to the textbook rational formulas) and, executable,
+by CPython's struct codec (halfcorr.compare_spec_cpython)."""
 import bisect
 
 def hval24(m):            # value * 2^24 of half magnitude bits m <= 0x7c00
